@@ -47,7 +47,12 @@ pub fn populate(mk: &mut Mk, o: &TreeOpts) {
         let label = short_entry(b"VERIFVOL   ", 0x08, 0, 0, FMT_DATE, FMT_TIME, FMT_DATE, FMT_TIME);
         mk.put_slot(root, &label);
         let old: Vec<u32> = OLD_CHAIN.iter().map(|&c| fix(c)).collect();
-        mk.file(root, "OLD.DAT", 0x20, &old, 2 * cb + cb / 2, 1);
+        let old_slot = mk.file(root, "OLD.DAT", 0x20, &old, 2 * cb + cb / 2, 1);
+        if !mk.g.fat32 {
+            // on FAT16 bytes 20..22 of an entry are not a cluster field (other systems keep an extended-attribute
+            // handle there): a non-zero value must not influence where the file is found
+            mk.patch_slot(root, old_slot, |e| e[20..22].copy_from_slice(&[0x01, 0x00]));
+        }
         // RO.DAT sits in the very first data cluster (directly behind a FAT16 root directory); the rest of its block is zero
         mk.file(root, "RO.DAT", 0x21, &[fix(2)], 100, 2);
         mk.file(root, "EMPTY.DAT", 0x20, &[], 0, 3);
@@ -69,6 +74,10 @@ pub fn populate(mk: &mut Mk, o: &TreeOpts) {
         let sub = mk.mkdir(root, "SUB", &subc);
         let deep = mk.mkdir(sub, "DEEP", &[fix(4)]);
         mk.file(deep, "IN.DAT", 0x20, &[fix(6)], 10, 5);
+        if mk.g.fat32 && mk.g.clusters >= 65_540 {
+            // a chain link whose value is a multiple of 65536 (low half-word zero, yet not a free entry)
+            mk.file(deep, "HIGH.DAT", 0x20, &[65_535, 65_536], cb + 10, 8);
+        }
         let per = 16 * mk.g.spc as usize;
         let total = per * 2;
         let mut i = 0;
@@ -76,6 +85,11 @@ pub fn populate(mk: &mut Mk, o: &TreeOpts) {
             if mk.next_slot(sub) == 15 {
                 // the last slot of the first directory block holds a deletable file with contents
                 mk.file(sub, "B.DAT", 0x20, &[fix(17)], 300, 7);
+                continue;
+            }
+            if mk.next_slot(sub) == 5 {
+                // read-only + hidden + system + archive: protected exactly like a plain read-only file
+                mk.file(sub, "E.BIN", 0x27, &[fix(18)], 40, 9);
                 continue;
             }
             mk.file(sub, &format!("P{:03}.BIN", i), 0x20, &[], 0, 0);
@@ -162,10 +176,11 @@ pub fn g_v16a() -> Geom {
     Geom::fat16(4085, 1)
 }
 pub fn g_v16b() -> Geom {
-    // 4094 clusters: FAT exactly fills its last sector; 1 FAT; 2 blocks per cluster; 32-entry root
+    // 4094 clusters: FAT exactly fills its last sector; 1 FAT; 2 blocks per cluster; 40-entry root
     let mut g = Geom::fat16(4094, 2);
     g.nfats = 1;
-    g.root_entries = 32;
+    // 40 entries: the last block of the root directory is only half used
+    g.root_entries = 40;
     g.lba_start = 63;
     g.label = *b"           ";
     g
